@@ -463,6 +463,14 @@ def _reader_closures(m):
     installed = []
     assigns = sorted([x for x in own_walk(init.node) if isinstance(x, ast.Assign) and any(ast.unparse(t) == 'self.read_fn' for t in x.targets)
                       and isinstance(x.value, ast.Name)], key=lambda x: x.lineno)
+    # `self.read_fn = getattr(X, name, closure)`: the closure is still what is installed when the lookup misses
+    for x in own_walk(init.node):
+        if isinstance(x, ast.Assign) and any(ast.unparse(t) == 'self.read_fn' for t in x.targets) and isinstance(x.value, ast.Call) \
+                and ast.unparse(x.value.func) == 'getattr' and len(x.value.args) == 3 and isinstance(x.value.args[2], ast.Name):
+            y = ast.Assign(targets=x.targets, value=x.value.args[2])
+            ast.copy_location(y, x)
+            assigns.append(y)
+    assigns.sort(key=lambda x: x.lineno)
     prev = 0
     for x in assigns:
         # every definition of that name since the previous installation may be the one installed (if/else alternatives)
@@ -607,6 +615,39 @@ def rule_D2(ctx):
                     r.fail(f.key, x, f'the decoder examines bits with {x.func.attr}(), which never raises at the end of the data, and no remaining-bits '
                            'test precedes it: a codeword cut off here is decoded as if the missing bits were there (or absent), and the returned '
                            'position lies beyond the end, instead of ReadError', loc=f.loc(x), extra={'props': ['C10', 'C06']})
+            if isinstance(x, ast.Call) and isinstance(x.func, ast.Attribute) and ast.unparse(x.func.value) == 'self._bitstore' and len(x.args) >= 2 \
+                    and (x.func.attr.startswith('slice_to_') or x.func.attr.startswith('getslice')):
+                # a store-level window read never raises for a window past the end (it is clipped): the window's end must be known to
+                # lie inside the data - a raising test before it, or an enclosing test, that bounds exactly that end
+                hi = x.args[1]
+                want = _linear(hi)
+                okc = None
+                for y in own_walk(f.node):
+                    if not isinstance(y, ast.If):
+                        continue
+                    t = y.test
+                    if not (isinstance(t, ast.Compare) and len(t.ops) == 1):
+                        continue
+                    a, op, b = t.left, t.ops[0], t.comparators[0]
+                    inside = any(x is z for bb in y.body for z in ast.walk(bb))
+                    before = y.lineno < x.lineno and G.exits(y.body) and 'ReadError' in G.raises_in(y.body)
+                    if inside:
+                        # positive form: len(self) >= hi   /   hi <= len(self)
+                        if isinstance(op, ast.GtE) and G.is_len_of(a, 'self') and _linear(b) == want and want is not None:
+                            okc = y
+                        if isinstance(op, ast.LtE) and G.is_len_of(b, 'self') and _linear(a) == want and want is not None:
+                            okc = y
+                    elif before:
+                        if isinstance(op, ast.Gt) and G.is_len_of(b, 'self') and _linear(a) == want and want is not None:
+                            okc = y
+                        if isinstance(op, ast.Lt) and G.is_len_of(a, 'self') and _linear(b) == want and want is not None:
+                            okc = y
+                if okc is not None:
+                    r.ok(f'{f.key}:{norm(x)}', {'instance': f.key, 'window_read': norm(x), 'bounded_by': norm(okc.test)})
+                else:
+                    r.fail(f.key, x, f'the decoder reads the window ending at {norm(hi)} straight from the store, which clips a window that runs past the end '
+                           'instead of raising; no test bounds exactly that end by len(self) (a test that forgets the start position lets a truncated '
+                           'codeword through as if zero bits followed)', loc=f.loc(x), extra={'props': ['C10', 'C06']})
             if isinstance(x, ast.Subscript) and isinstance(x.ctx, ast.Load) and ast.unparse(x.value) == 'self' and isinstance(x.slice, ast.Slice):
                 # slices never raise: a length test must precede
                 pre = [y for y in own_walk(f.node) if isinstance(y, ast.If) and 'len(self)' in ast.unparse(y.test) and 'ReadError' in G.raises_in(y.body)
@@ -652,13 +693,16 @@ def rule_D2(ctx):
         if not any(isinstance(x, ast.Subscript) and isinstance(x.slice, ast.Slice) and x.slice.upper is not None for x in own_walk(c.node)) and c not in vr:
             vr.append(c)
     if len(vr) != 1:
-        raise AnalysisError('variable-length read_fn closure not found')
+        r.defer('variable-length read_fn closure not found')
+        vr = []
     ok = False
-    for t in [x for x in own_walk(vr[0].node) if isinstance(x, ast.Try)]:
+    for t in ([x for x in own_walk(vr[0].node) if isinstance(x, ast.Try)] if vr else []):
         for h in t.handlers:
             if G.handler_names(h) & {'InterpretError', 'ValueError'} and set(G.raises_in(h.body)) == {'ReadError'}:
                 ok = True
-    if not ok:
+    if not vr:
+        pass
+    elif not ok:
         r.fail(vr[0].key, 'InterpretError -> ReadError', 'reading a truncated code from a stream must raise ReadError; the getter\'s '
                'InterpretError is not translated back', loc=vr[0].loc())
     else:
